@@ -246,6 +246,51 @@ pub fn raw_handshake_scenario(tag: &str, greet: usize) -> Scenario {
     Scenario { name, d: 0, run: Box::new(run) }
 }
 
+
+/// C04 at the public API: packets of 0, 1, the fragment boundaries and exactly max_packet_size bytes through Client::send and
+/// RemoteClient::send (the size checks of the two differ from those of HalfConnection), both directions, Reliable and Unreliable, on a
+/// loss-free network: each arrives once, byte-identical, in order, and no datagram on the wire exceeds 1472 bytes.
+pub fn c04_api_scenario(max_packet: usize) -> Scenario {
+    let name = format!("C04.api-sizes|max_packet_size {}|both directions|R and U", max_packet);
+    let run = move |_ch: &mut Chooser| -> ExecResult {
+        let mut cfg = EwCfg::new(1);
+        cfg.server.max_packet_size = max_packet; cfg.clients[0].max_packet_size = max_packet;
+        cfg.server.max_receive_alloc = cfg.server.max_receive_alloc.max(max_packet); cfg.clients[0].max_receive_alloc = cfg.clients[0].max_receive_alloc.max(max_packet);
+        let mut sizes: Vec<usize> = vec![0, 1, 1447, 1448, 1449, 2896, 2897, max_packet - 1, max_packet];
+        sizes.retain(|s| *s <= max_packet); sizes.dedup();
+        let mut script: Vec<EwOp> = vec![at(0, Act::Connect(0))];
+        for (k, &sz) in sizes.iter().enumerate() {
+            for (chn, mode) in [(0u8, SendMode::Reliable), (1u8, SendMode::Unreliable)] {
+                script.push(after_c(0, 1 + 3 * k, Act::CSend(0, chn, mode, sz)));
+                script.push(after_s(0, 1 + 3 * k, Act::SSend(0, chn, mode, sz)));
+            }
+        }
+        let mut env = EwEnv::basic(0, 3 * sizes.len() + 400);
+        env.fates = DF_NONE; env.deltas = &[20]; env.fair_delta = 20; env.stop_when_done = false;
+        let mut c0 = Chooser::new(vec![], vec![]);
+        let tr = run_ew(&cfg, &script, &env, &mut c0);
+        if crate::lwprops::verbose() { print_ew(&cfg, &tr); }
+        let mut violations = Vec::new();
+        for d in tr.wire.iter() { if d.bytes.len() > 1472 { violations.push(viol("C04.wire", "C04.wire:api".into(), format!("a datagram of {} bytes was sent from {}", d.bytes.len(), d.src))); break; } }
+        for dir in 0..2usize {
+            for chn in 0..2u8 {
+                let mut expected: Vec<Vec<u8>> = Vec::new();
+                for (k, &sz) in sizes.iter().enumerate() { expected.push(ew_payload(dir, 0, chn, k as u32, sz).to_vec()); }
+                let evs = if dir == 0 { &tr.sev[0] } else { &tr.cev[0] };
+                // the two channels are told apart by their payload headers; sizes below the header length only by position, so compare the
+                // whole stream of this direction restricted to payloads of this channel's list
+                let got: Vec<&Vec<u8>> = evs.iter().filter_map(|e| if let Ev::Receive(d) = &e.ev { Some(d) } else { None }).filter(|d| expected.iter().any(|x| x == *d)).collect();
+                let mut pos = 0usize;
+                for x in expected.iter() {
+                    match got[pos.min(got.len())..].iter().position(|g| *g == x) { Some(p) => pos += p + 1, None => { violations.push(viol("C04.api", "C04.api:missing-or-altered".into(), format!("{}: the packet of {} bytes sent on channel {} did not arrive byte-identical and in order ({} packets of that channel's sizes arrived)", if dir == 0 { "client -> server" } else { "server -> client" }, x.len(), chn, got.len()))); break; } }
+                }
+            }
+        }
+        ExecResult { violations, panic: None, outcome: ew_outcome(&tr), states: ew_states(&tr), transitions: tr.obs.len() as u64, witnesses: 0, sample: Some(format!("sizes {:?} each way, Reliable and Unreliable: {} Receive events at the server, {} at the client", sizes, tr.sev[0].iter().filter(|e| matches!(e.ev, Ev::Receive(_))).count(), tr.cev[0].iter().filter(|e| matches!(e.ev, Ev::Receive(_))).count())) }
+    };
+    Scenario { name, d: 0, run: Box::new(run) }
+}
+
 pub fn c07(quick: bool) -> PropRun {
     let (own, custom) = c07_parts(quick);
     let scs = assemble(own, custom, quick, "C07", EO_C07 | EO_C08);
